@@ -122,8 +122,11 @@ class IPv4FlowSpec(NLRI):
         construct a prefix string from '1.1.1.0/24' to '\x18\x01\x01\x01'
         """
         ip, masklen = prefix.split('/')
-        ip_hex = netaddr.IPAddress(ip).packed
+        ip_hex = netaddr.IPAddress(ip, 4).packed
         masklen = int(masklen)
+        if not 0 <= masklen <= 32:
+            # the address part alone never shows netaddr the length; at most 4 octets are written
+            raise ValueError('invalid IPv4 prefix length %s' % masklen)
         if 16 < masklen <= 24:
             ip_hex = ip_hex[0:3]
         elif 8 < masklen <= 16:
